@@ -441,6 +441,7 @@ func ConcProfileFor(name string, seed int64) ConcProfile {
 		p.Idx = []IdxDesc{{"on", "b", "true", 0}}
 		p.PRollback, p.PFailIns, p.PMidDump = 0.3, 0.2, 0.3
 		p.Txns = 2
+		p.Snapshot = r.Intn(2) == 0 // a snapshot looks at the collection while transactions are in flight
 	}
 	return p
 }
